@@ -129,6 +129,12 @@ func (dps *DefaultPathStrategy) GetRequestInfo(urlCtx base.UrlContext, rootOutPa
 		ri.FileNameWithPath = filepath.Join(rootOutPath, ri.StreamName, filename)
 	}
 
+	// 流名称来自请求的url，必须是单一的路径元素，否则(比如"..")拼接出的文件会落在rootOutPath之外。
+	// 返回空值，上层按非法请求处理
+	if ri.StreamName == "." || ri.StreamName == ".." || strings.ContainsAny(ri.StreamName, "/\\") {
+		return RequestInfo{}
+	}
+
 	return
 }
 
